@@ -247,6 +247,112 @@ def rule_zoom(ctx, fns, enums):
     return n
 
 
+def rule_ssrb_geometry(ctx, f):
+    """SSRB(const ProjDataInfo&, n, ...) builds the output geometry.  Counts are only conserved if every output segment has room for
+    ALL the input segments combined into it:
+      g1  the input segments of output segment o are  o*n - n/2 .. o*n + n/2  (n odd is enforced)
+      g2  the output segment's ring-difference range runs from the minimum ring difference of the first to the maximum of the last of them
+      g3  its axial extent is computed from  min_m = min over ALL those input segments of m(first axial position)  and
+          max_m = max over ALL of them of m(last axial position)  (reductions inside a loop over exactly that segment range), as
+          (max_m - min_m) / axial sampling + 1 positions starting at 0."""
+    from engine.loops import describe
+
+    defs = LocalDefs(f)
+    sub = {d: defs.single_def(d) for d in defs.decl}
+    if len(f.params) < 2:
+        ctx.unrec(f.qn, "expected SSRB(in_proj_data_info, num_segments_to_combine, ...)")
+        return 0
+    nk = "v%d" % f.params[1]["d"]
+    fid = f.qn + "(ProjDataInfo)"
+    loops = []
+    for lp in f.walk():
+        if lp.k == "ForStmt":
+            d = describe(lp, names=False)
+            if d:
+                loops.append((d, lp))
+    n = 0
+    found = False
+    for d2, l2 in loops:
+        outer = [(d1, l1) for d1, l1 in loops if l1 is not l2 and any(a is l1 for a in l2.ancestors())]
+        if len(outer) != 1:
+            continue
+        d1, l1 = outer[0]
+        ok_ = "v%d" % d1["d"]
+        vd = [m for m in l2.c[0].walk() if m.k == "VarDecl" and m.c]
+        cond = l2.c[1].strip() if len(l2.c) == 4 else None
+        if not vd or cond is None or cond.k != "BinaryOperator" or cond.op != "<=":
+            continue
+        lo = key(vd[0].c[0].strip(), False, sub)
+        hi = key(cond.c[1].strip(), False, sub)
+        want_lo = "(- (* %s %s) (/ %s 2))" % (ok_, nk, nk)
+        want_hi = "(+ (* %s %s) (/ %s 2))" % (ok_, nk, nk)
+        if "(* %s %s)" % (ok_, nk) not in lo and "(* %s %s)" % (nk, ok_) not in lo:
+            continue
+        found = True
+        sk = "v%d" % d2["d"]
+        g1 = lo.replace("(* %s %s)" % (nk, ok_), "(* %s %s)" % (ok_, nk)) == want_lo and hi.replace("(* %s %s)" % (nk, ok_), "(* %s %s)" % (ok_, nk)) == want_hi and str(d2.get("step")) == "1"
+        ctx.ob("C15.g-ssrb-geometry-covers-combined-segments", fid, "combined-input-segments", g1, "%s:%d" % (f.file, l2.line), "input segments o*n - n/2 .. o*n + n/2 in steps of one" if g1 else "the loop over the combined input segments runs %s .. %s" % (lo, hi))
+        n += 1
+        # g2 ring differences
+        smin = [c for c in l1.calls() if (c.callee or "").endswith("::set_min_ring_difference")]
+        smax = [c for c in l1.calls() if (c.callee or "").endswith("::set_max_ring_difference")]
+        g2 = len(smin) == 1 and len(smax) == 1
+        if g2:
+            a, b = [key(x.strip(), False, sub) for x in smin[0].call_args()], [key(x.strip(), False, sub) for x in smax[0].call_args()]
+            g2 = re.fullmatch(r".*get_min_ring_difference\(%s\)" % re.escape(lo), a[0]) is not None and a[1] == ok_ and re.fullmatch(r".*get_max_ring_difference\(%s\)" % re.escape(hi), b[0]) is not None and b[1] == ok_
+        ctx.ob("C15.g-ssrb-geometry-covers-combined-segments", fid, "ring-difference-range", g2, "%s:%d" % (f.file, l1.line), "output ring differences = [min of the first, max of the last combined input segment]" if g2 else "the output segment's ring-difference range is not [min ring difference of the first, max ring difference of the last combined input segment]")
+        n += 1
+        # g3 reductions
+        red = {}
+        for m in l2.c[3].walk():
+            if m.k == "BinaryOperator" and m.op == "=" and m.c[0].strip().k == "DeclRefExpr" and m.c[1].strip().is_call() and (m.c[1].strip().callee or "") in ("std::min", "std::max"):
+                tgt = key(m.c[0].strip())
+                args = [key(x.strip(), False, sub) for x in m.c[1].strip().call_args()]
+                other = [x for x in args if x != tgt]
+                if len(args) == 2 and len(other) == 1:
+                    which = m.c[1].strip().callee.split("::")[-1]
+                    acc = "get_min_axial_pos_num" if which == "min" else "get_max_axial_pos_num"
+                    good = re.fullmatch(r".*\.get_m\(stir::Bin::Bin\(%s,0,.*\.%s\(%s\),0\)\)" % (sk, acc, sk), other[0]) is not None
+                    uncond = not any(a.k in ("IfStmt", "ConditionalOperator") and any(x is a for x in l2.c[3].walk()) for a in m.ancestors())
+                    red[which] = (tgt, good and uncond, m)
+        g3 = set(red) == {"min", "max"} and red["min"][1] and red["max"][1]
+        det = "min_m / max_m are reduced over every combined input segment (m of its first / last axial position)"
+        if g3:
+            # initial values: +huge / -huge, and the extent set from them
+            ini_ok = True
+            for which, sign in (("min", 1), ("max", -1)):
+                dd = red[which][2].c[0].strip().get("d")
+                vdn = defs.decl.get(dd)
+                v = None
+                if vdn is not None and vdn.c:
+                    e = vdn.c[0].strip()
+                    neg = e.k == "UnaryOperator" and e.op == "-"
+                    lit = e.c[0].strip() if neg else e
+                    if lit.k in ("FloatingLiteral", "IntegerLiteral"):
+                        v = -float(lit.get("v")) if neg else float(lit.get("v"))
+                if v is None or sign * v < 1e30:
+                    ini_ok = False
+            smx = [c for c in l1.calls() if (c.callee or "").endswith("::set_max_axial_pos_num")]
+            smn = [c for c in l1.calls() if (c.callee or "").endswith("::set_min_axial_pos_num")]
+            ext_ok = False
+            if len(smx) == 1 and len(smn) == 1:
+                e = key(smx[0].call_args()[0].strip(), False, sub)
+                mn, mx = red["min"][0], red["max"][0]
+                ext_ok = re.search(r"round\(\(\+ \(/ \(- %s %s\) [^ ]*get_axial_sampling\(%s\)\) 1\)\)" % (mx, mn, ok_), e) is not None and e.startswith("(- ") and e.endswith(" 1)") and key(smn[0].call_args()[0].strip()) == "0" and key(smx[0].call_args()[1].strip()) == ok_
+            g3 = ini_ok and ext_ok
+            if not g3:
+                det = "reductions start from +/-huge=%s, extent = round((max_m - min_m)/axial sampling + 1) - 1 from position 0 = %s" % (ini_ok, ext_ok)
+        else:
+            det = "the axial extent of an output segment is not computed from min/max of m over ALL combined input segments (reductions found: %s): the segment is too short for some of them and their end planes are dropped" % sorted(k for k, v in red.items() if v[1])
+        ctx.ob("C15.g-ssrb-geometry-covers-combined-segments", fid, "axial-extent", g3, "%s:%d" % (f.file, l2.line), det)
+        n += 1
+        break
+    if not found:
+        ctx.ob("C15.g-ssrb-geometry-covers-combined-segments", fid, "combined-input-segments", False, f.where(), "no loop over the input segments o*n - n/2 .. o*n + n/2 combined into output segment o: the output segment's axial extent cannot cover them all")
+        n += 1
+    return n
+
+
 def run(ctx):
     ctx.explanation = (
         "Decides structural clauses only. SSRB(out, in, do_norm): (a) each output sinogram starts as a fresh empty sinogram, accumulates "
@@ -268,6 +374,13 @@ def run(ctx):
         ctx.fail_broken("anchor SSRB(ProjData&, const ProjData&, bool) not found")
     else:
         rule_ssrb(ctx, ss[0])
+    sg = [f for f in us[0].functions if f.short == "SSRB" and f.body is not None and f.cfg_raw and f.params and "ProjDataInfo &" in f.params[0]["t"] and "const" in f.params[0]["t"] and "ProjDataInfo" in (f.ret if hasattr(f, "ret") else "ProjDataInfo")]
+    sg = [f for f in sg if len(f.params) >= 5]
+    if not sg:
+        ctx.fail_broken("anchor SSRB(const ProjDataInfo&, int, int, int, int, int) not found")
+    else:
+        rule_ssrb_geometry(ctx, sg[0])
+        ctx.require_count("C15.g-ssrb-geometry-covers-combined-segments", 3)
     seen, zf = set(), []
     for f in us[1].functions:
         if (f.file, f.line) not in seen:
